@@ -1,7 +1,7 @@
 \* liveness under weak fairness: finite faults, honest source => the migration completes
 CONSTANTS
   MaxIdx = 3
-  FaultKinds = {"short", "fetchErr", "quota", "fatal", "rootErr", "sthErr", "consErr", "cancel", "revoke"}
+  FaultKinds = {"short", "emptyPage", "fetchErr", "quota", "fatal", "rootErr", "sthErr", "consErr", "cancel", "revoke"}
   KeepHist = FALSE
   SrcSizes = {2}
   Growths = {0, 1}
